@@ -155,6 +155,13 @@ def sx_outcome(o, script_exc=None):
     return [sym('raise'), c08.sx_exn(cls, s.encode('utf-8'), code, um, sid, usersub)]
 
 
+def skip_case(case):
+    if case.get('line') is None:
+        case['line'] = wire.encode_line(case['rid'].encode(), case['meth'], case['q'], b'\r\n').decode('ascii')
+    case['impl'] = {'skipped': True, 'crashed': 'not run: an earlier request blocked the reader for good', 'calls': [],
+                    'msgs': [], 'handler': 0, 'raised': [], 'exits': 0, 'order': [], 'used': []}
+
+
 def run_cases(cases, classes):
     """run the cases on real servers (a fresh server every 40 cases); fill in 'impl'"""
     sc = Script(classes)
@@ -162,7 +169,12 @@ def run_cases(cases, classes):
     # a fresh server every 40 cases, except one long session of 400 requests on the same server (behaviour must not
     # depend on how many requests a connection has already served)
     bounds = [(0, min(400, len(cases)))] + [(b, b + 40) for b in range(400, len(cases), 40)]
+    blocked = False
     for base, top in bounds:
+        if blocked:
+            for case in cases[base:top]:
+                skip_case(case)
+            continue
         with fixture.patched() as env:
             ad = fixture.metadata_adapter(script)
             h = fixture.make_handler()
@@ -175,11 +187,17 @@ def run_cases(cases, classes):
                 if line is None:
                     line = wire.encode_line(case['rid'].encode(), case['meth'], case['q'], b'\r\n').decode('ascii')
                     case['line'] = line
+                if blocked:
+                    skip_case(case)
+                    continue
                 n0, e0 = len(ad.calls), len(h.ex)
                 sc.arm(case['outs'], c06.norm_calls(c06.expected_calls(case['meth'], case['q'])))
                 crashed = None
                 try:
                     fixture.feed(srv, line)
+                except fixture.FeedTimeout as ex:   # reported once (oracle); the rest of the batch is not run
+                    crashed = repr(ex)
+                    blocked = True
                 except Exception as ex:      # nothing may escape on_received_request
                     crashed = repr(ex)
                 calls = [[sym(c[0])] + [c06.c_arg(a) for a in c[1:]] for c in ad.calls[n0:]]
@@ -314,6 +332,8 @@ def explore(ctx, res, n_per_method):
         res.evaluations += 1
         res.count('handlers:end-to-end')
         im = case['impl']
+        if im.get('skipped'):
+            continue
         if im['crashed'] or not isinstance(m, list) or len(m) != 2 or m[1] == b'unmodelled':
             continue
         msgs, nh = im['msgs'], im['handler']
@@ -333,6 +353,9 @@ def explore(ctx, res, n_per_method):
         res.evaluations += 1
         im = case['impl']
         raise_at = next((i for i, o in enumerate(case['outs']) if o[0] == 'raise'), None)
+        if im.get('skipped'):
+            res.count('handlers:not-run')
+            continue
         res.count('handlers:%s:%s' % (case['meth'], 'raise' if raise_at is not None else 'return'))
         bad = oracle(case)
         if bad:
